@@ -74,7 +74,6 @@ def run(ctx):
         vlib.selftest_trace(ctx, "WritePathTrace.tla", "WritePathTrace.cfg", tr, swap)
         vlib.selftest_trace(ctx, "WritePathTrace.tla", "WritePathTrace.cfg", tr, drop)
     # 4. whole-store histories (several fractions, rotation, seals, retention, process deaths at hook points)
-    _store.design(ctx)
     sruns, sev = _store.histories(ctx, "writepath", runs=120 if quick else 2500, scenario_runs=0)
     ctx.cov["traces_validated_against_impl"] = summ["cases"] + runs + sruns
     ctx.cov["trace_events"] = ev.get("events", 0)
